@@ -7,7 +7,7 @@ import os
 import z3
 
 from values import *
-from interp import Unsupported, Unwind, ModelError, simp, to_bv, norm_int, BVV
+from interp import Unsupported, Unwind, ModelError, Deadlock, simp, to_bv, norm_int, BVV
 from mirparse import INT_TYPES
 import models as M
 from models import model, pattern, deref_all, as_str, sbytes, OutsideModel
@@ -933,6 +933,8 @@ def _drain(it, v):
                 return [Agg(None, (a, b)) for a, b in zip(src, other)]
             if op == 'chain':
                 return src + _drain(it, f)
+    if isinstance(v, Arr):
+        return list(v.items)         # a Vec / array used where an IntoIterator is expected (zip, chain, extend)
     if isinstance(v, CharIdx):
         out = []
         pos = v.pos
@@ -1489,7 +1491,28 @@ def rwlock_ops(it, args, callee):
     op = callee.rsplit('::', 1)[1]
     if op == 'new':
         return MutexV(args[0], None, False)
-    return M.mutex_lock(it, args, callee)
+    r = args[0]
+    while isinstance(rd(r), Ref):
+        r = rd(r)
+    if it.sched is not None:
+        return it.sched.rwlock(it, r, op)
+    m = rd(r)
+    if not isinstance(m, MutexV):
+        raise ModelError('RwLock::%s on %r' % (op, m))
+    me = it.thread
+    if op == 'read':
+        if m.held is None or isinstance(m.held, tuple):
+            holders = dict(m.held[1]) if isinstance(m.held, tuple) else {}
+            holders[me] = holders.get(me, 0) + 1          # recursive read on one thread: no writer can be waiting here
+            wr(r, MutexV(m.data, ('r', tuple(sorted(holders.items()))), m.poisoned))
+            g = GuardV(r, 'r')
+            return Err(g) if m.poisoned else Ok(g)
+        raise Deadlock('RwLock::read while this thread holds the write lock (%s)' % (r.cell.name or 'rwlock'), it.where())
+    if m.held is not None:
+        raise Deadlock('RwLock::write while this thread holds %s (%s)' % ('a read lock' if isinstance(m.held, tuple) else 'the write lock', r.cell.name or 'rwlock'), it.where())
+    wr(r, MutexV(m.data, me, m.poisoned))
+    g = GuardV(r, 'x')
+    return Err(g) if m.poisoned else Ok(g)
 
 
 @pattern(r'^<(std::sync::)?RwLock(Read|Write)Guard<.*> as Deref(Mut)?>::deref(_mut)?$')
@@ -1832,6 +1855,41 @@ def as_ptr(it, args, callee):
         ent = (key, sym)
         tab[id(key)] = ent
     return ent[1]
+
+
+@pattern(r'^(std::sync::)?Arc::<.*>::as_ptr$|^(std::rc::)?Rc::<.*>::as_ptr$|^(std::boxed::)?Box::<.*>::as_ptr$')
+def arc_as_ptr(it, args, callee):
+    """the address of a shared allocation: one symbolic word per allocation (the model's cell).  An allocation made
+    after another one was dropped may reuse its address; the solver may identify them, the replay settles it."""
+    v = args[0]
+    while isinstance(v, Ref):
+        v = rd(v)
+    cell = getattr(v, 'cell', None)
+    if cell is None:
+        raise Unsupported('as_ptr of %s' % type(v).__name__)
+    if it.x is None:
+        return id(cell) & ((1 << 63) - 1)
+    tab = it.x.__dict__.setdefault('ptrs', {})
+    ent = tab.get(id(cell))
+    if ent is None:
+        sym = it.x.bv('addr_%d' % len(tab), 64)
+        ent = (cell, sym)
+        tab[id(cell)] = ent
+    return ent[1]
+
+
+@pattern(r'^<(std::vec::IntoIter|std::slice::Iter|std::iter::\w+)<.*> as Iterator>::unzip::<.*>$')
+def iter_unzip(it, args, callee):
+    v = args[0]
+    items = v.items[v.pos:] if isinstance(v, IterV) else None
+    if items is None or v.kind not in ('into', 'refs'):
+        raise Unsupported('unzip on %r' % (v,))
+    a, b = [], []
+    for x in items:
+        x = rd(x) if isinstance(x, Ref) else x
+        a.append(x.f[0])
+        b.append(x.f[1])
+    return Agg(None, (Arr(tuple(a), 'vec'), Arr(tuple(b), 'vec')))
 
 
 @pattern(r'^<\*(const|mut) .* as PartialEq>::eq$')
